@@ -335,6 +335,18 @@ func c14Case(c *core.Ctx, id string) {
 	}
 	s := pj.NewSession(filepath.Join(base, "a"))
 	p := g.Project()
+	if hashStr(id)%4 != 3 {
+		// a source file that has the name of the target listing it: //pkg:t0 and source://pkg:t0 are two labels, two records
+		for k, t := range p.AllTargets() {
+			if k >= 2 || t.Name == "all" {
+				continue
+			}
+			p.Srcs[filepath.Join(t.Pkg, t.Name)] = "source named like its target " + t.Label() + "\n"
+			t.Sources = append(t.Sources, t.Name)
+			sort.Strings(t.Sources)
+			c.Count("sources_named_like_their_target", 1)
+		}
+	}
 	e := pj.NewEngine(s, p, g)
 	r := g.R
 	nsteps := c.N(10, 20)
